@@ -43,7 +43,7 @@ func runC20(c *Ctx) {
 				c.Check(K(f.Name, "size"), acc.Sel.Pos(), sizeOwners[f.Root().Name], "the size counter is touched only by worker-side functions (it has no lock)", "accessed in "+f.Name)
 			}
 		}
-		c.Check("size accesses", 0, n >= 10, "the size counter is used in at least 10 places", "found "+itoa(n))
+		c.Check("size accesses", 0, n >= 5, "the size counter is used in at least 5 places", "found "+itoa(n))
 		dsOwners := map[string]bool{
 			ksFn + "worker": true, ksFn + "put": true, ksFn + "delete": true, ksFn + "loadSize": true, ksFn + "persistSize": true, ksFn + "get": true,
 			ksFn + "countUpTo": true, ksFn + "containsPrefix": true, ksFn + "Close": true,
@@ -56,7 +56,7 @@ func runC20(c *Ctx) {
 				c.Check(K(f.Name, "primary datastore"), acc.Sel.Pos(), dsOwners[f.Root().Name], "the primary datastore handle is used only on the worker, by the constructors, and by Close after the worker ended", "used in "+f.Name)
 			}
 		}
-		c.Check("datastore accesses", 0, m >= 15, "the primary datastore is used in at least 15 places", "found "+itoa(m))
+		c.Check("datastore accesses", 0, m >= 8, "the primary datastore is used in at least 8 places", "found "+itoa(m))
 		// the worker-side functions are called only from worker-side functions
 		for _, fn := range []string{ksFn + "put", ksFn + "delete", ksFn + "empty", ksFn + "loadSize", ksFn + "get", ksFn + "countUpTo", ksFn + "containsPrefix", rkFn + "put", rkFn + "handleResetOp"} {
 			for _, s := range p.AllCalls(fn) {
@@ -100,7 +100,7 @@ func runC20(c *Ctx) {
 				}
 			}
 		}
-		c.Check("operation kinds", 0, len(declared) >= 7, "the keystore has at least 7 operation kinds", "found "+itoa(len(declared)))
+		c.Check("operation kinds", 0, len(declared) >= 4, "the keystore has at least 4 operation kinds", "found "+itoa(len(declared)))
 		for _, fn := range []string{ksFn + "worker", rkFn + "worker"} {
 			f := c.Fn(fn)
 			info := f.Info()
@@ -177,7 +177,7 @@ func runC20(c *Ctx) {
 	hinfo := h.Info()
 	isSuccess := func(e ast.Expr) bool {
 		s, ok := eng.Unparen(e).(*ast.SelectorExpr)
-		return ok && s.Sel.Name == "success"
+		return ok && eng.NameOf(s.Sel) == "success"
 	}
 	successFalseEdge := func(b *eng.Block, i int) bool {
 		for _, ft := range hcf.EdgeFacts(b, i) {
@@ -365,7 +365,7 @@ func runC20(c *Ctx) {
 				c.Check(K(g.Name, "alternate slot"), acc.Sel.Pos(), ok, "the alternate slot is touched only while holding its token (withAltDs closures) or by the worker's prepare/swap/teardown", "altDs used in "+g.Name)
 			}
 		}
-		c.Check("alternate-slot accesses", 0, n >= 10, "the alternate slot is used in at least 10 places", "found "+itoa(n))
+		c.Check("alternate-slot accesses", 0, n >= 5, "the alternate slot is used in at least 5 places", "found "+itoa(n))
 		for _, fn := range []string{rkFn + "altPutBlind", rkFn + "altPutChecked"} {
 			for _, s := range p.UsesOf(p.Func(fn).Obj) {
 				// used only as the put function of drainBuf inside a withAltDs closure, or called there
@@ -385,8 +385,11 @@ func runC20(c *Ctx) {
 		rcf := rc.CFG()
 		rinfo := rc.Info()
 		var succ []eng.Loc
-		for _, as := range assignsTo(rc, func(l ast.Expr) bool { id, ok := l.(*ast.Ident); return ok && id.Name == "success" }) {
-			if isBoolConst(rinfo, as.Rhs[0], true) {
+		for _, as := range assignsTo(rc, func(l ast.Expr) bool {
+			v, ok := eng.ObjOf(rinfo, l).(*eng.Var)
+			return ok && !v.IsField() && types.Identical(v.Type(), types.Typ[types.Bool])
+		}) {
+			if len(as.Lhs) == 1 && as.Tok == token.ASSIGN && isBoolConst(rinfo, as.Rhs[0], true) {
 				succ = append(succ, rcf.LocOf(as))
 			}
 		}
@@ -400,7 +403,17 @@ func runC20(c *Ctx) {
 			}
 		}
 		edges := errEdges(rcf, false, rkFn+"withAltDs")
-		c.Check(K(rc.Name, "tests alt-slot errors"), rc.Pos(), len(edges) >= 7, "every alternate-slot operation of ResetCids has its error tested", "found "+itoa(len(edges))+" tests")
+		tested := map[*ast.CallExpr]bool{}
+		for _, e := range edges {
+			if call, _, ok := e.Fact.ErrCall(); ok {
+				tested[call] = true
+			}
+		}
+		altCalls := rc.Calls(rkFn + "withAltDs")
+		c.Check(K(rc.Name, "alt-slot operations"), rc.Pos(), len(altCalls) >= 2, "ResetCids works on the alternate slot through withAltDs", "found "+itoa(len(altCalls))+" calls")
+		for i, call := range altCalls {
+			c.Check(K(rc.Name, "alt-slot op#"+itoa(i)+" error tested"), call.Pos(), tested[call], "every alternate-slot operation of ResetCids has its error tested", "the error of this withAltDs call is never tested")
+		}
 		for i, e := range edges {
 			r, w := rcf.Reach(e.Start(), eng.LocSet(append(succ, comms...)...), eng.ReachOpt{})
 			c.CheckW(K(rc.Name, "alt-slot failure#"+itoa(i)+" aborts"), e.Fact.Pos(), !r, "a failed write/drain/sync of the alternate slot aborts the reset (drainBuf has already removed the keys from the buffer, so carrying on would lose acknowledged puts)", "the reset can continue or succeed after the failure", rcf.DescribePath(w))
